@@ -1138,6 +1138,343 @@ theorem C05_quarantined_never_relayed (cfg : Cfg) (doms : Nat → Domain) (msgs 
     simp [this, bodyRes]
 
 
+/-! ## C05, part 4: DANE pins the END-ENTITY certificate — a chain that merely contains the pinned certificate
+does not authenticate (strengthening round 6) -/
+
+/-- the records that authenticate are the ones about the end-entity certificate / its certification path -/
+theorem kindMatches_iff (t : Tlsa) (cert : Cert) :
+    kindMatches t cert = true ↔ (t = .eeMatch ∨ (t = .taMatch ∧ cert ≠ .wrongName)) := by
+  unfold kindMatches
+  cases t <;> cases cert <;> simp
+
+/-- **Content only reaches an MX whose governing TLSA records match its end-entity certificate.**  In every
+history, for a message DANE applies to: if the governing RRset of the MX the content was written to has a usable
+record at all, it is a DANE-EE record of the END-ENTITY certificate, or a DANE-TA record the end-entity certificate
+chains to (with the name check).  In particular a usage-3 record matching some other certificate of the presented
+chain (`eeOther`: the genuine MX's certificate appended after a foreign end-entity certificate), a usage-2 record
+for a presented certificate off the certification path (`taOther`) and plain mismatches never carry content —
+whatever the PKIX status of the chain, on new and on pooled connections. -/
+theorem C05_content_only_to_leaf_pinned_mx (cfg : Cfg) (doms : Nat → Domain) (msgs : List Msg)
+    (pool : Pool) (hp : PoolGood cfg doms pool) :
+    ∀ p ∈ msgs.zip (run cfg doms msgs pool), Policy.dane ∈ inForce cfg p.1 → ∀ u ∈ p.2.data,
+      ∀ t, governing u.conn.mx = .rrset t →
+        t = .unusable ∨ t = .eeMatch ∨ (t = .taMatch ∧ u.conn.mx.cert ≠ .wrongName) := by
+  intro p hmem hd u hu t hg
+  obtain ⟨hsat, _⟩ := C05_data_only_on_satisfying_conn cfg doms msgs pool hp p hmem u hu
+  obtain ⟨_, h2, _⟩ := hsat.policies.dane hd
+  obtain ⟨_, hus, hdm⟩ := governing_usable u.conn.mx t hg
+  by_cases htu : t = .unusable
+  · exact Or.inl htu
+  · right
+    have := (h2 (hus htu)).2
+    rw [hdm] at this
+    exact (kindMatches_iff t u.conn.mx.cert).1 this
+
+theorem C05_foreign_pin_never_carries_content (cfg : Cfg) (doms : Nat → Domain) (msgs : List Msg)
+    (pool : Pool) (hp : PoolGood cfg doms pool) :
+    ∀ p ∈ msgs.zip (run cfg doms msgs pool), Policy.dane ∈ inForce cfg p.1 → ∀ u ∈ p.2.data,
+      governing u.conn.mx ≠ .rrset .eeOther ∧ governing u.conn.mx ≠ .rrset .taOther ∧
+      governing u.conn.mx ≠ .rrset .mismatch := by
+  intro p hmem hd u hu
+  have h := C05_content_only_to_leaf_pinned_mx cfg doms msgs pool hp p hmem hd u hu
+  refine ⟨fun hg => ?_, fun hg => ?_, fun hg => ?_⟩ <;>
+    (rcases h _ hg with h | h | h <;> simp at h)
+
+/-! ## C05, part 5: overlapping deliveries — what another delivery does never changes the policy in force for
+this one (strengthening round 6) -/
+
+theorem lkStep_other {α : Type} (err : α) (σ : LkWorld α) (s : LkStep α) (i : Nat) (h : s.who ≠ i) :
+    (lkStep err σ s).1 i = σ i ∧ ∀ e, (lkStep err σ s).2 = some e → e.1 ≠ i := by
+  unfold lkStep
+  refine ⟨by simp [Ne.symm h], ?_⟩
+  intro e he
+  simp only [Option.map_eq_some_iff] at he
+  obtain ⟨o, _, rfl⟩ := he
+  exact h
+
+theorem lkStep_own {α : Type} (err : α) (σ : LkWorld α) (s : LkStep α) :
+    (lkStep err σ s).1 s.who = (lkOwn err (σ s.who) s).1 ∧
+    (lkStep err σ s).2 = (lkOwn err (σ s.who) s).2.map (fun o => (s.who, o)) := by
+  unfold lkStep
+  simp
+
+theorem lkExec_cons_fst {α : Type} (err : α) (s : LkStep α) (rest : List (LkStep α)) (σ : LkWorld α) :
+    (lkExec err (s :: rest) σ).1 =
+      (match (lkStep err σ s).2 with | some e => [e] | none => []) ++ (lkExec err rest (lkStep err σ s).1).1 := rfl
+
+theorem lkExec_cons_snd {α : Type} (err : α) (s : LkStep α) (rest : List (LkStep α)) (σ : LkWorld α) :
+    (lkExec err (s :: rest) σ).2 = (lkExec err rest (lkStep err σ s).1).2 := rfl
+
+/-- **Non-interference.**  For every interleaving of Prepare / lookup-return / cancel / check steps of any number
+of deliveries, what delivery `i` observes (and its final lookup state) is what it observes when only its OWN steps
+are run: steps of other deliveries — their cancellations, time-outs, failing or slow lookups — are invisible. -/
+theorem C05_lookup_noninterference {α : Type} (err : α) (i : Nat) :
+    ∀ (steps : List (LkStep α)) (σ σ' : LkWorld α), σ i = σ' i →
+      (lkExec err steps σ).1.filter (fun e => e.1 = i) =
+        (lkExec err (steps.filter (fun s => s.who = i)) σ').1 ∧
+      (lkExec err steps σ).2 i = (lkExec err (steps.filter (fun s => s.who = i)) σ').2 i := by
+  intro steps
+  induction steps with
+  | nil => intro σ σ' h; simp [lkExec, h]
+  | cons s rest ih =>
+    intro σ σ' h
+    by_cases hw : s.who = i
+    · have hf : (s :: rest).filter (fun s => decide (s.who = i)) = s :: rest.filter (fun s => decide (s.who = i)) := by
+        simp [hw]
+      rw [hf]
+      simp only [lkExec_cons_fst, lkExec_cons_snd]
+      obtain ⟨a1, a2⟩ := lkStep_own err σ s
+      obtain ⟨b1, b2⟩ := lkStep_own err σ' s
+      have hst : (lkStep err σ s).1 i = (lkStep err σ' s).1 i := by
+        rw [← hw, a1, b1, hw, h]
+      have hev : (lkStep err σ s).2 = (lkStep err σ' s).2 := by
+        rw [a2, b2, hw, h]
+      obtain ⟨c1, c2⟩ := ih (lkStep err σ s).1 (lkStep err σ' s).1 hst
+      refine ⟨?_, c2⟩
+      rw [List.filter_append, c1, hev]
+      congr 1
+      cases hq : (lkStep err σ' s).2 with
+      | none => simp
+      | some e =>
+        have : e.1 = i := by
+          rw [b2] at hq
+          simp only [Option.map_eq_some_iff] at hq
+          obtain ⟨o, _, rfl⟩ := hq
+          exact hw
+        simp [this]
+    · have hf : (s :: rest).filter (fun s => decide (s.who = i)) = rest.filter (fun s => decide (s.who = i)) := by
+        simp [hw]
+      rw [hf]
+      simp only [lkExec_cons_fst, lkExec_cons_snd]
+      obtain ⟨a1, a2⟩ := lkStep_other err σ s i hw
+      obtain ⟨c1, c2⟩ := ih (lkStep err σ s).1 σ' (by rw [a1, h])
+      refine ⟨?_, c2⟩
+      rw [List.filter_append, c1]
+      cases hq : (lkStep err σ s).2 with
+      | none => simp
+      | some e => simp [a2 e hq]
+
+/-- lookup state of a delivery whose context is not done and whose lookups can only have found `v` -/
+def LkInv {α : Type} (v : α) (st : LkSt α) : Prop :=
+  st.cancelled = false ∧ ∀ w r, st.cur = some (w, r) → w = v ∧ ∀ x, r = some x → x = v
+
+theorem lkOwn_inv {α : Type} (err v : α) (i : Nat) (st : LkSt α) (s : LkStep α) (hinv : LkInv v st)
+    (hnc : s ≠ .cancel i) (hw : s.who = i) (hprep : ∀ w, s = .prepare i w → w = v) :
+    LkInv v (lkOwn err st s).1 ∧ ∀ r, (lkOwn err st s).2 = some (.saw r) → r = v := by
+  obtain ⟨h1, h2⟩ := hinv
+  cases s with
+  | prepare j w =>
+    have hj : j = i := hw
+    subst hj
+    have := hprep w rfl
+    subst this
+    refine ⟨⟨h1, ?_⟩, by simp [lkOwn]⟩
+    intro w' r hc
+    simp [lkOwn] at hc
+    exact ⟨hc.1.symm, fun x hx => by rw [← hc.2] at hx; simp at hx⟩
+  | returns j g =>
+    unfold lkOwn
+    cases hc : st.cur with
+    | none => simp; exact ⟨h1, h2⟩
+    | some pr =>
+      obtain ⟨w, r⟩ := pr
+      cases r with
+      | some x => simp; exact ⟨h1, h2⟩
+      | none =>
+        simp only
+        split
+        · refine ⟨⟨h1, ?_⟩, by simp⟩
+          intro w' r' hc'
+          simp [h1] at hc'
+          obtain ⟨rfl, rfl⟩ := hc'
+          have := (h2 w none hc).1
+          exact ⟨this, fun x hx => by simp at hx; rw [← hx]; exact this⟩
+        · exact ⟨⟨h1, h2⟩, by simp⟩
+  | cancel j =>
+    have hj : j = i := hw
+    subst hj
+    exact absurd rfl hnc
+  | check j =>
+    unfold lkOwn
+    cases hc : st.cur with
+    | none => simp; exact ⟨h1, h2⟩
+    | some pr =>
+      obtain ⟨w, r⟩ := pr
+      cases r with
+      | some x =>
+        simp only
+        refine ⟨⟨h1, h2⟩, ?_⟩
+        intro r hr
+        simp at hr
+        rw [← hr]
+        exact (h2 w (some x) hc).2 x rfl
+      | none =>
+        simp only [h1]
+        exact ⟨⟨h1, h2⟩, by simp⟩
+
+theorem lkExec_saw {α : Type} (err v : α) (i : Nat) :
+    ∀ (steps : List (LkStep α)) (σ : LkWorld α), LkInv v (σ i) → LkStep.cancel i ∉ steps →
+      (∀ w, LkStep.prepare i w ∈ steps → w = v) →
+      ∀ e ∈ (lkExec err steps σ).1, e.1 = i → ∀ r, e.2 = .saw r → r = v := by
+  intro steps
+  induction steps with
+  | nil => intro σ _ _ _ e he; simp [lkExec] at he
+  | cons s rest ih =>
+    intro σ hinv hnc hprep e he hei r her
+    unfold lkExec at he
+    simp only [List.mem_append] at he
+    have hnc' : LkStep.cancel i ∉ rest := fun h => hnc (by simp [h])
+    have hprep' : ∀ w, LkStep.prepare i w ∈ rest → w = v := fun w h => hprep w (by simp [h])
+    by_cases hw : s.who = i
+    · obtain ⟨a1, a2⟩ := lkStep_own err σ s
+      have hs := lkOwn_inv err v i (σ s.who) s (by rw [hw]; exact hinv)
+        (fun h => hnc (by simp [h])) hw (fun w h => hprep w (by simp [h]))
+      rcases he with he | he
+      · cases hq : (lkStep err σ s).2 with
+        | none => simp [hq] at he
+        | some e' =>
+          simp [hq] at he
+          subst he
+          rw [a2] at hq
+          simp only [Option.map_eq_some_iff] at hq
+          obtain ⟨o, ho, rfl⟩ := hq
+          simp only at her
+          subst her
+          exact hs.2 r ho
+      · exact ih (lkStep err σ s).1 (by rw [← hw, a1]; exact hs.1) hnc' hprep' e he hei r her
+    · obtain ⟨a1, a2⟩ := lkStep_other err σ s i hw
+      rcases he with he | he
+      · cases hq : (lkStep err σ s).2 with
+        | none => simp [hq] at he
+        | some e' =>
+          simp [hq] at he
+          subst he
+          exact absurd hei (a2 e hq)
+      · exact ih (lkStep err σ s).1 (by rw [a1]; exact hinv) hnc' hprep' e he hei r her
+
+theorem lkInv_init {α : Type} (v : α) (i : Nat) : LkInv v ((lkInit : LkWorld α) i) := by
+  unfold LkInv lkInit
+  simp
+
+/-- **The policy in force for a delivery does not depend on the other deliveries.**  In every interleaving of the
+lookup steps of any number of deliveries: a delivery whose own context is never cancelled acts — whenever it acts
+at all (it may still be waiting) — on what ITS OWN lookup finds in the world (`v`: the published MTA-STS policy of
+the domain / the TLSA RRset of the MX), never on an error produced by the cancellation, time-out or failure of
+another delivery. -/
+theorem C05_concurrent_policy_in_force {α : Type} (err v : α) (i : Nat) (steps : List (LkStep α))
+    (hnc : LkStep.cancel i ∉ steps) (hprep : ∀ w, LkStep.prepare i w ∈ steps → w = v) :
+    ∀ e ∈ (lkExec err steps lkInit).1, e.1 = i → ∀ r, e.2 = .saw r → r = v :=
+  lkExec_saw err v i steps lkInit (lkInv_init v i) hnc hprep
+
+theorem foldl_seen {α : Type} (i : Nat) (v : α) :
+    ∀ (evs : List (Nat × LkObs α)) (acc : α), acc = v →
+      (∀ e ∈ evs, e.1 = i → ∀ r, e.2 = .saw r → r = v) →
+      evs.foldl (fun acc e => if e.1 = i then (match e.2 with | .saw r => r | _ => acc) else acc) acc = v := by
+  intro evs
+  induction evs with
+  | nil => intro acc h _; simpa using h
+  | cons e rest ih =>
+    intro acc h hall
+    simp only [List.foldl_cons]
+    apply ih _ _ (fun e' he' => hall e' (by simp [he']))
+    by_cases hi : e.1 = i
+    · simp only [hi, ↓reduceIte]
+      cases ho : e.2 with
+      | saw r => exact hall e (by simp) hi r ho
+      | nilFuture => exact h
+      | blocked => exact h
+    · simp [hi, h]
+
+/-- in the schedule the harness drives, a delivery other than the victim acts on the published policy -/
+theorem lkSeen_healthy {α : Type} (err v : α) (k victim i : Nat) (h : i ≠ victim) :
+    lkSeen err v (lkSchedule v k victim) i = v := by
+  unfold lkSeen
+  apply foldl_seen i v _ v rfl
+  apply C05_concurrent_policy_in_force err v i
+  · unfold lkSchedule
+    intro hm
+    simp only [List.mem_append, List.mem_map, List.mem_flatMap, List.mem_filter, List.mem_range] at hm
+    rcases hm with (⟨j, _, hj⟩ | hm) | ⟨j, _, hj⟩
+    · simp at hj
+    · split at hm
+      · simp at hm
+        exact h hm
+      · simp at hm
+    · simp at hj
+  · intro w hm
+    unfold lkSchedule at hm
+    simp only [List.mem_append, List.mem_map, List.mem_flatMap, List.mem_filter, List.mem_range] at hm
+    rcases hm with (⟨j, _, hj⟩ | hm) | ⟨j, _, hj⟩
+    · simp at hj
+      exact hj.2.symm
+    · split at hm <;> simp at hm
+    · simp at hj
+
+theorem concDomain_healthy (d : Domain) (k victim i : Nat) (h : i ≠ victim) : concDomain d k victim i = d := by
+  unfold concDomain
+  rw [lkSeen_healthy STS.absent d.sts k victim i h]
+
+theorem poolGood_merge (cfg : Cfg) (doms : Nat → Domain) (p q : Pool) (hp : PoolGood cfg doms p)
+    (hq : PoolGood cfg doms q) : PoolGood cfg doms (p.merge q) := by
+  intro d c hc
+  unfold Pool.merge at hc
+  rcases List.mem_append.mp hc with h | h
+  · exact hp d c h
+  · exact hq d c h
+
+/-- **Overlapping deliveries.**  A batch of deliveries that overlap in time on one target (all started before any
+finished), one of which may be cancelled / time out while the policy fetch or the DNS lookups are in flight: every
+connection the content of a delivery that was NOT cancelled is written to satisfies every requirement in force
+for THAT message — evaluated against the published facts of the domain (`doms`), not against what the cancelled
+delivery saw — and the connections that go back to the pool keep the pool invariant, so the main theorem applies
+to every history that follows the batch. -/
+theorem C05_concurrent_data_only_on_satisfying_conn (cfg : Cfg) (doms : Nat → Domain) (k victim : Nat) :
+    ∀ (ms : List Msg) (i : Nat) (acc : Pool), PoolGood cfg doms acc →
+      (∀ p ∈ ms.zip (runConc cfg doms k victim ms i acc).1, ∀ out, p.2 = some out → ∀ u ∈ out.data,
+        Satisfies cfg p.1 (doms u.dom) u ∧ u.dom ∈ p.1.rcpts) ∧
+      PoolGood cfg doms (runConc cfg doms k victim ms i acc).2 := by
+  intro ms
+  induction ms with
+  | nil => intro i acc h; simp [runConc, h]
+  | cons m rest ih =>
+    intro i acc hacc
+    unfold runConc
+    by_cases hv : i = victim
+    · simp only [hv, ↓reduceIte]
+      obtain ⟨a, b⟩ := ih (victim + 1) acc hacc
+      refine ⟨?_, b⟩
+      intro p hp out ho
+      simp only [List.zip_cons_cons, List.mem_cons] at hp
+      rcases hp with hp | hp
+      · subst hp; simp at ho
+      · exact a p hp out ho
+    · simp only [hv, ↓reduceIte]
+      have hdom : (fun x => if x = 0 then concDomain (doms 0) k victim i else doms x) = doms := by
+        funext x
+        by_cases hx : x = 0
+        · simp [hx, concDomain_healthy (doms 0) k victim i hv]
+        · simp [hx]
+      rw [hdom]
+      have hpool := deliverMsg_pool cfg doms m emptyPool (poolGood_empty cfg doms)
+      obtain ⟨a, b⟩ := ih (i + 1) (acc.merge (deliverMsg cfg doms m emptyPool).2)
+        (poolGood_merge cfg doms _ _ hacc hpool)
+      refine ⟨?_, b⟩
+      intro p hp out ho
+      simp only [List.zip_cons_cons, List.mem_cons] at hp
+      rcases hp with hp | hp
+      · subst hp
+        simp only [Option.some.injEq] at ho
+        subst ho
+        exact deliverMsg_data cfg doms m emptyPool (poolGood_empty cfg doms)
+      · exact a p hp out ho
+
+/-- batch, then any history: the main theorem continues to hold from the pool the batch leaves behind -/
+theorem C05_after_concurrent_batch (cfg : Cfg) (doms : Nat → Domain) (k victim : Nat) (ms rest : List Msg) :
+    ∀ p ∈ rest.zip (run cfg doms rest (runConc cfg doms k victim ms 0 emptyPool).2), ∀ u ∈ p.2.data,
+      Satisfies cfg p.1 (doms u.dom) u ∧ u.dom ∈ p.1.rcpts :=
+  C05_data_only_on_satisfying_conn cfg doms rest _
+    (C05_concurrent_data_only_on_satisfying_conn cfg doms k victim ms 0 emptyPool (poolGood_empty cfg doms)).2
+
 /-! ## levels the code records are sound
 
 (The REQUIRETLS checks compare the recorded levels; this is what makes them meaningful.) -/
@@ -1254,6 +1591,46 @@ example : (run daneOnly (fun _ => ⟨false, .absent, aliasWrongMX, []⟩) [plain
 example : governing aliasInsecureTargetMX = .rrset .eeMatch ∧
     (run daneOnly (fun _ => ⟨false, .absent, aliasInsecureTargetMX, []⟩) [plainMsg] emptyPool).map
     (fun o => (o.rcpts.map (·.2), o.data.map (fun u => u.conn.tlsLevel))) = [([.ok], [2])] := by decide
+
+/-- an impostor: unknown issuer, own key; the RRset pins the genuine MX's certificate, which the impostor sends
+AFTER its own end-entity certificate (`eeOther`) -/
+def impostorMX : MX := ⟨1, true, .offered, .untrusted, true, true, true, .eeOther, false, .none, .none, false, false⟩
+/-- DANE-TA record for a CA certificate that is presented but did not issue the end-entity certificate -/
+def offPathMX : MX := ⟨1, true, .offered, .valid, true, true, true, .taOther, false, .none, .none, false, false⟩
+
+/-- the hypotheses of `C05_content_only_to_leaf_pinned_mx` are met and the model refuses both (550, nothing sent),
+although the second server's chain is PKIX-valid -/
+example : governing impostorMX = .rrset .eeOther ∧ governing offPathMX = .rrset .taOther ∧
+    Policy.dane ∈ inForce daneOnly plainMsg := by decide
+example : (run daneOnly (fun _ => ⟨false, .absent, impostorMX, []⟩) [plainMsg] emptyPool).map
+    (fun o => (o.rcpts.map (·.2), o.data.length)) = [([.err .perm], 0)] := by decide
+example : (run daneOnly (fun _ => ⟨false, .absent, offPathMX, []⟩) [plainMsg] emptyPool).map
+    (fun o => (o.rcpts.map (·.2), o.data.length)) = [([.err .perm], 0)] := by decide
+
+/-- two overlapping deliveries to a domain with an enforce-mode policy, the first one cancelled during the fetch:
+the cancelled one acts on "no policy" (its own lookup failed), the other one on the published policy — the
+hypothesis `cancel i ∉ steps` of `C05_concurrent_policy_in_force` is needed, and holds for the second delivery -/
+example : lkSeen STS.absent STS.enforce (lkSchedule STS.enforce 2 0) 0 = .absent ∧
+    lkSeen STS.absent STS.enforce (lkSchedule STS.enforce 2 0) 1 = .enforce := by decide
+
+/-- an interleaving in which the victim is cancelled between the two Prepare calls and its lookup returns last -/
+example : (lkExec STS.absent [.prepare 0 STS.enforce, .cancel 0, .prepare 1 STS.enforce, .check 0, .check 1,
+      .returns 1 1, .check 1, .returns 0 1, .check 0] lkInit).1 =
+    [(0, .saw .absent), (1, .blocked), (1, .saw .enforce), (0, .saw .absent)] := by decide
+
+/-- the batch on a world where the only MX is not listed in the enforced policy: the healthy delivery is refused
+(550), the cancelled one has no outcome of its own, nothing is pooled; without the victim both are refused -/
+example : ((runConc strict (fun _ => dWeak) 2 0 [plainMsg, plainMsg] 0 emptyPool).1.map
+    (fun o => o.map (fun o => (o.rcpts.map (·.2), o.data.length)))) = [none, some ([.err .perm], 0)] := by decide
+
+/-- three overlapping deliveries to a good MX, the middle one cancelled: two new connections, both pooled; the next
+message reuses the first -/
+example : ((runConc strict (fun _ => dGood) 3 1 [plainMsg, plainMsg, rtMsg] 0 emptyPool).1.map
+    (fun o => o.map (fun o => o.data.map (fun u => (u.mailRT, u.conn.transactions))))) =
+      [some [(false, 0)], none, some [(true, 0)]] ∧
+    (run strict (fun _ => dGood) [plainMsg]
+      (runConc strict (fun _ => dGood) 3 1 [plainMsg, plainMsg, rtMsg] 0 emptyPool).2).map
+      (fun o => o.data.map (fun u => u.conn.transactions)) = [[1]] := by decide
 
 end Demo
 
